@@ -11,6 +11,9 @@ CHECKS={
  'C02':dict(technique='property-based testing with a differential judge: generated TypeScript programs printed in flat and contextual mode (generated refPathTemplate/container configurations); generated JSON documents (exact members, near misses, injected undeclared keys, documents derived from the emitted schema) judged by python-jsonschema Draft 2020-12 (ECMA-262 patterns via Node) against validate() and a ternary strict-membership reference',
    text='Exploration: 1500 programs per quick run x ~30 documents per root x up to 3 printing modes; well-formedness by the Draft 2020-12 meta-schema, $ref resolution by JSON pointer in returned schema + export, both implication directions of the statement, and the throw-instead-of-wrong-schema clause for Date/bigint/Map/Set/typed arrays.',
    note='Trusted: python-jsonschema 4.26 as the meaning of validity; custom format strings asserted with the registered definitions; exported definitions placed where the chosen template points.', ref='DESIGN.md section 2 C02'),
+ 'C16':dict(technique='model-based (history) property-based testing: generated sequences of schemaWithContext calls (orders, repetitions, overrides, 7 template/container shapes) into one SchemaPrintingContext, compared with a reordered history over the same parser set and with fresh single-parser contexts; references resolved by JSON pointer in the final export',
+   text='Exploration: 2500 histories per quick run over programs with up to 4 shared, recursive or mutually referring named types; the oracle is the metamorphic relation the statement gives (same export for every order and repetition; every definition equal to the fresh-context one; no dangling $ref or mapping target).',
+   note='Trusted: schemas compared as JSON values; a textual difference is attributed to the listed finding only after the harness has shown equality with references inlined and that only synthetic variant definitions (or presence of aliases) differ.', ref='DESIGN.md section 2 C16'),
  'C03':dict(technique='property-based testing: relational oracle (validate/safeParse/parse agreement, projection, idempotence, key-order, non-mutation) over generated validators (compiled and b.*) x generated values x 5 option sets',
    text='Exploration of the (validator, value, options) product with relations that need no reference model; evaluated inside Node where identity, prototypes and key order are visible.',
    note='Trusted: the worker\'s projection/equality helpers; zod() out of scope.', ref='DESIGN.md section 2 C03'),
